@@ -39,6 +39,11 @@ CHECKS = {
    text='Bounded exhaustive exploration of materials x density spellings on level-0 layouts, on the C05 universe trees and on LIKE n BUT MAT/RHO cards; for every arrangement witness the GEOMCOMP line listing the containing volume must name the composition of the reference lowest-level owner cell (void -> m0), one name per (material, density class), spelling-equivalent densities sharing and numerically different ones never sharing, and the COMPOSITION entry must carry the density value.',
    note='Trusted: spelling classes = trailing zeros of the fraction and exponent marker e/E/d/D/omitted over identical digits; other respellings (zero exponent, zeros inside the exponent) are accepted either way. Geometry semantics as C05.',
    tech='explicit choice-tree enumeration of decks; GEOMCOMP/COMPOSITION joined with the geometry evaluator at complete witnesses'),
+
+ 'C13': dict(cat='model_checking', ref='4/C13',
+   text='For every deck of a deviation-bounded family of universe trees and of a family of surface sets built to stress surface equality and hashing, ALL 56 configurations (2^3 flags x 7 inline scores) are converted; each output must agree with the reference (owner provenance and composition) at all witnesses, which makes all configurations pairwise equivalent, and every surface use of the un-deduplicated file must have a polynomially identical surface on the same side of the same volume of the de-duplicated file.',
+   note='Trusted: semantics as C05/C09. Real inline scores are covered at 7 values on both sides of every threshold reachable by the decks.',
+   tech='explicit enumeration of decks x complete configuration product; reference comparison at witnesses + polynomial identity of merged surfaces'),
 }
 NA_REASON = 'check not built yet in this build round (planned, see DESIGN.md section 4); no claim is made'
 
